@@ -1,3 +1,4 @@
+#![cfg(not(kani))]
 //! Native replay bodies for the MIR engine's node-level evaluator check (mirsym/resolve_node.py).
 //! Never run under Kani (the parser and `Value::resolve` are not executable there): tier "off".
 //!
@@ -560,6 +561,24 @@ pub fn c20_conversion() {
 pub fn c07_extractor_eval() {
     c20_extractor_eval()
 }
+/// Unary minus through the public API (`Program::compile("-x")` with x bound to an int variable).
+/// The parser and `Value::resolve` cannot be executed by Kani: this body is decided by the MIR
+/// engine on the NEGATE arm of `Value::resolve` (mirsym/c08_neg.py) and is what the driver replays
+/// natively for a counterexample of that engine (tier "off").
+pub fn c08_unary_minus() {
+    let i: i64 = any();
+    let p = cel_interpreter::Program::compile("-x").unwrap();
+    let mut ctx = cel_interpreter::Context::default();
+    ctx.add_variable_from_value("x", Value::Int(i));
+    let r = p.execute(&ctx);
+    if i == i64::MIN {
+        check!(r.is_err(), "-(i64::MIN) is an overflow error, not a panic or a wrapped value");
+    } else {
+        check!(matches!(&r, Ok(Value::Int(v)) if *v == -i), "unary minus is exact");
+    }
+    
+}
+
 pub fn c20_node() {
     node_replay()
 }
@@ -576,7 +595,7 @@ pub fn c09_node() {
     node_replay()
 }
 
-crate::harnesses! {
+crate::replay_only! {
     #[kani::unwind(2)] c06_node: "off", "Program::compile + Value::resolve on one operator node with logging host functions (native replay body for the MIR engine)", "17 operators x 5 operand-result kinds";
     #[kani::unwind(2)] c07_node: "off", "same body (evaluation order / at-most-once aspects)", "17 operators x 5 operand-result kinds";
     #[kani::unwind(2)] c07_call: "off", "Program::compile + Value::resolve on a call node f(..)/t().f(..) with logging host functions", "0-3 arguments, with/without receiver, declared/undeclared, receiver ok/error";
@@ -585,6 +604,7 @@ crate::harnesses! {
     #[kani::unwind(2)] c20_extractor_eval: "off", "size(..) / x.size() / max(..) over logging host functions through Program::compile + execute", "This with/without receiver, Arguments; failing argument index 0-2 or none";
     #[kani::unwind(2)] c20_conversion: "off", "host function with one typed parameter (i64/u64/bool/f64/Option<..>) called with a value of each kind, through Program::compile + execute", "7 parameter types x 6 value kinds";
     #[kani::unwind(2)] c07_extractor_eval: "off", "same body (C07)", "same";
+    #[kani::unwind(2)] c08_unary_minus: "off", "Program::compile + Value::resolve NEGATE arm", "i: all i64";
     #[kani::unwind(2)] c20_node: "off", "same body (C20)", "17 operators x 5 operand-result kinds";
     #[kani::unwind(2)] c20_missing_argument: "off", "host functions with Expression / Identifier parameters called with too few arguments, through Program::compile + execute", "0-3 leading value parameters, 0-3 supplied arguments";
     #[kani::unwind(2)] c08_node: "off", "same body (C08 operators)", "17 operators x 5 operand-result kinds";
